@@ -109,12 +109,35 @@ pub fn recover_dump_main(dir: PathBuf) -> ! {
 }
 
 fn recover(image: &Path) -> Result<Value, String> {
-    let out = Command::new(crate::session::self_exe()).arg("recover-dump").arg(image).output().map_err(|e| e.to_string())?;
-    let text = String::from_utf8_lossy(&out.stdout);
+    // output goes to files next to the image (a pipe would fill up while we poll for the exit)
+    let out_path = PathBuf::from(format!("{}.dump.json", image.display()));
+    let err_path = PathBuf::from(format!("{}.stderr", image.display()));
+    let out_f = std::fs::File::create(&out_path).map_err(|e| e.to_string())?;
+    let err_f = std::fs::File::create(&err_path).map_err(|e| e.to_string())?;
+    let mut child = Command::new(crate::session::self_exe()).arg("recover-dump").arg(image).stdout(out_f).stderr(err_f).spawn().map_err(|e| e.to_string())?;
+    let t0 = std::time::Instant::now();
+    let status = loop {
+        match child.try_wait() {
+            Ok(Some(st)) => break st,
+            Ok(None) if t0.elapsed() > Duration::from_secs(90) => {
+                let _ = child.kill();
+                let _ = child.wait();
+                let _ = std::fs::remove_file(&out_path);
+                let _ = std::fs::remove_file(&err_path);
+                return Err("recovery did not finish within 90 s (killed)".into());
+            }
+            Ok(None) => std::thread::sleep(Duration::from_millis(3)),
+            Err(e) => return Err(e.to_string()),
+        }
+    };
+    let text = std::fs::read_to_string(&out_path).unwrap_or_default();
+    let err = std::fs::read_to_string(&err_path).unwrap_or_default();
+    let _ = std::fs::remove_file(&out_path);
+    let _ = std::fs::remove_file(&err_path);
     let line = text.lines().last().unwrap_or("");
     match serde_json::from_str::<Value>(line) {
         Ok(v) => Ok(v),
-        Err(_) => Err(format!("no dump (exit {:?}): stdout {:?} stderr {:?}", out.status.code(), text.chars().take(200).collect::<String>(), String::from_utf8_lossy(&out.stderr).chars().rev().take(600).collect::<String>().chars().rev().collect::<String>())),
+        Err(_) => Err(format!("no dump (exit {:?}): stdout {:?} stderr {:?}", status.code(), text.chars().take(200).collect::<String>(), err.chars().rev().take(600).collect::<String>().chars().rev().collect::<String>())),
     }
 }
 
@@ -321,7 +344,10 @@ pub fn run_history(seed: u64, prefix_ops: usize, traced_ops: usize, max_torn: us
         count(&mut out, "ops_in_traced_session", traced_ops as u64);
         // ---- images -------------------------------------------------------------------------------------
         let images_dir = root.join("images");
-        let st = Command::new("python3")
+        // replay.py streams image batches; each batch is recovered / judged / deleted before the next is built
+        use std::io::{BufRead, BufReader, Write};
+        use std::process::Stdio;
+        let mut py = Command::new("python3")
             .arg(format!("{}/crash/replay.py", crate::report::VERIF_DIR))
             .arg(&trace)
             .arg(&dir)
@@ -330,23 +356,86 @@ pub fn run_history(seed: u64, prefix_ops: usize, traced_ops: usize, max_torn: us
             .arg(max_torn.to_string())
             .arg(max_points.to_string())
             .arg(&base)
-            .output()
+            .env("XSMON_REPLAY_STREAM", "1")
+            .stdin(Stdio::piped())
+            .stdout(Stdio::piped())
+            .stderr(Stdio::piped())
+            .spawn()
             .map_err(|e| SessionError::Harness(format!("replay.py: {}", e)))?;
-        if !st.status.success() {
-            return Err(SessionError::Harness(format!("replay.py failed: {}", String::from_utf8_lossy(&st.stderr).chars().rev().take(800).collect::<String>().chars().rev().collect::<String>())));
+        let mut py_in = py.stdin.take().unwrap();
+        let py_out = BufReader::new(py.stdout.take().unwrap());
+        let snapshots = std::sync::Arc::new(h.snapshots.clone());
+        let ops = std::sync::Arc::new(h.ops.clone());
+        let mut pending: Vec<Finding> = vec![];
+        let mut n_images = 0usize;
+        let mut final_img: Option<String> = None;
+        let mut stats = json!({});
+        for line in py_out.lines().map_while(Result::ok) {
+            let v: Value = match serde_json::from_str(&line) {
+                Ok(v) => v,
+                Err(_) => continue,
+            };
+            if v["done"] == true {
+                final_img = v["final"].as_str().map(|s| s.to_string());
+                stats = v["stats"].clone();
+                break;
+            }
+            let images: Vec<Value> = v["batch"].as_array().cloned().unwrap_or_default();
+            let imgs = std::sync::Arc::new(images);
+            let n = imgs.len();
+            n_images += n;
+            let results = {
+                let imgs = imgs.clone();
+                let snapshots = snapshots.clone();
+                let ops = ops.clone();
+                run_cases(n, workers(), move |i| {
+                    let img = &imgs[i];
+                    let dump = recover(Path::new(img["dir"].as_str().unwrap_or("")));
+                    let fs = evaluate(img, dump, &snapshots, &ops, k0);
+                    let _ = std::fs::remove_dir_all(img["dir"].as_str().unwrap_or(""));
+                    fs
+                })
+            };
+            for (i, (fs, in_op)) in results.into_iter().enumerate() {
+                let img = &imgs[i];
+                let kind = img["kind"].as_str().unwrap_or("?").to_string();
+                count(&mut out, &format!("images.{}", kind), 1);
+                if in_op {
+                    count(&mut out, "images_inside_an_operation", 1);
+                    out.image_hashes.push(fnv(&format!("{}|{}|{}|{}", seed, img["point"], kind, img["cut"])));
+                }
+                out.sets.entry("syscall_kinds_at_crash_points".into()).or_default().insert(img["what"].as_str().unwrap_or("").split(' ').next().unwrap_or("").to_string());
+                for mut f in fs {
+                    f.detail = json!({"history_seed": seed, "image": {"point": img["point"], "kind": kind, "cut": img["cut"], "after": img["what"], "acked_ops": img["acked"].as_array().map(|a| a.len()), "op_in_flight": img["begun"]}, "what": f.detail, "ops": h.trace_ops.iter().rev().take(30).rev().collect::<Vec<_>>()});
+                    pending.push(f);
+                }
+            }
+            let _ = py_in.write_all(b"ok\n");
+            let _ = py_in.flush();
         }
-        let manifest: Value = serde_json::from_slice(&std::fs::read(images_dir.join("manifest.json")).map_err(|e| SessionError::Harness(e.to_string()))?).map_err(|e| SessionError::Harness(e.to_string()))?;
-        for (k, v) in manifest["stats"].as_object().cloned().unwrap_or_default() {
+        drop(py_in);
+        let st = py.wait_with_output().map_err(|e| SessionError::Harness(e.to_string()))?;
+        if !st.status.success() || final_img.is_none() {
+            let msg = String::from_utf8_lossy(&st.stderr).chars().rev().take(800).collect::<String>().chars().rev().collect::<String>();
+            if msg.contains("No space left") {
+                out.inconclusive = Some(format!("resources: {}", msg));
+                return Ok(());
+            }
+            return Err(SessionError::Harness(format!("replay.py failed: {}", msg)));
+        }
+        for (k, v) in stats.as_object().cloned().unwrap_or_default() {
             count(&mut out, &format!("replay.{}", k), v.as_u64().unwrap_or(0));
         }
-        // fidelity self-check: the fully replayed image must dump like a copy of the live directory
+        // fidelity self-check: the fully replayed image must dump like a copy of the live directory;
+        // otherwise nothing this history showed is believed
         let live_copy = root.join("live");
         copy_dir(&dir, &live_copy).map_err(|e| SessionError::Harness(e.to_string()))?;
-        let a = recover(Path::new(manifest["final"].as_str().unwrap_or("")));
+        let a = recover(Path::new(final_img.as_deref().unwrap_or("")));
         let b = recover(&live_copy);
         match (a, b) {
             (Ok(a), Ok(b)) if a["frames"] == b["frames"] && a["raw"] == b["raw"] && a["cas"] == b["cas"] => {
                 count(&mut out, "fidelity_self_checks_passed", 1);
+                out.findings.extend(pending);
             }
             (a, b) => {
                 out.inconclusive = Some(format!(
@@ -357,35 +446,8 @@ pub fn run_history(seed: u64, prefix_ops: usize, traced_ops: usize, max_torn: us
                 return Ok(());
             }
         }
-        let images: Vec<Value> = manifest["images"].as_array().cloned().unwrap_or_default();
-        let snapshots = std::sync::Arc::new(h.snapshots.clone());
-        let ops = std::sync::Arc::new(h.ops.clone());
-        let imgs = std::sync::Arc::new(images);
-        let n = imgs.len();
-        let results = {
-            let imgs = imgs.clone();
-            run_cases(n, workers(), move |i| {
-                let img = &imgs[i];
-                let dump = recover(Path::new(img["dir"].as_str().unwrap_or("")));
-                let fs = evaluate(img, dump, &snapshots, &ops, k0);
-                let _ = std::fs::remove_dir_all(img["dir"].as_str().unwrap_or(""));
-                fs
-            })
-        };
-        for (i, (fs, in_op)) in results.into_iter().enumerate() {
-            let img = &imgs[i];
-            let kind = img["kind"].as_str().unwrap_or("?").to_string();
-            count(&mut out, &format!("images.{}", kind), 1);
-            if in_op {
-                count(&mut out, "images_inside_an_operation", 1);
-                out.image_hashes.push(fnv(&format!("{}|{}|{}|{}", seed, img["point"], kind, img["cut"])));
-            }
-            out.sets.entry("syscall_kinds_at_crash_points".into()).or_default().insert(img["what"].as_str().unwrap_or("").split(' ').next().unwrap_or("").to_string());
-            for mut f in fs {
-                f.detail = json!({"image": {"point": img["point"], "kind": kind, "cut": img["cut"], "after": img["what"], "acked_ops": img["acked"].as_array().map(|a| a.len()), "op_in_flight": img["begun"]}, "what": f.detail, "ops": h.trace_ops.iter().rev().take(30).rev().collect::<Vec<_>>()});
-                out.findings.push(f);
-            }
-        }
+        let n = n_images;
+        let manifest = json!({"stats": stats});
         out.sample = Some(json!({"traced_ops": h.trace_ops.iter().skip(prefix_ops).take(12).collect::<Vec<_>>(), "images": n, "stats": manifest["stats"]}));
         Ok(())
     })();
@@ -621,7 +683,8 @@ pub fn run(tier: &str, seed: u64) -> i32 {
     if strace_ok {
         for hno in 0..hists {
             let bulk = t && hno == hists - 1;
-            let o = run_history(mix(seed, 400 + hno as u64), prefix, if bulk { 12 } else { traced }, torn, points, bulk);
+            // the flushed-layout history carries ~20 MB per image: fewer points and cuts there
+            let o = run_history(mix(seed, 400 + hno as u64), prefix, if bulk { 12 } else { traced }, if bulk { 3 } else { torn }, if bulk { 120 } else { points }, bulk);
             absorb(&mut rep, o);
         }
     } else {
